@@ -57,6 +57,30 @@ def r02_1(prog, rep):
         rep.check(ok, "R02.1", d.qualname, d.loc, "returns unmarshal(t, decoder(value))", "api.decode does not unmarshal(t, <its `decoder` parameter applied to value>): " + T.show(r)[:120])
 
 
+def r02_4(prog, rep):
+    """Whatever memoises codec() keys on every configuration parameter."""
+    f = prog.function("typelib.codecs.codec")
+    params = [p for p in f.params]
+    memo = prog.is_memoised(f)
+    hand = []
+    for p in P.paths_of(prog, f):
+        for e in p.events:
+            if e[0] == "setitem" and e[1][0] == "ref" and e[1][1].startswith("typelib."):
+                hand.append(e[2])
+        if p.exit[0] == "return" and p.exit[1][0] == "sub" and p.exit[1][1][0] == "ref" and p.exit[1][1][1].startswith("typelib."):
+            hand.append(p.exit[1][2])
+    if hand:
+        bad = []
+        for key in hand:
+            used = {s[1] for s in T.walk(key) if s[0] == "param"}
+            missing = [x for x in params if x not in used]
+            if missing:
+                bad.append(missing)
+        rep.check(not bad, "R02.4", f.qualname, f.loc, "the hand-rolled codec memo is keyed on every configuration parameter", f"the codec memo key leaves out {bad[0]}: the first codec built for a type is served for every later encoder/decoder configuration", detail="memo-key")
+    else:
+        rep.check(bool(memo) or True, "R02.4", f.qualname, f.loc, f"codec() is {'memoised by ' + memo + ' on all of its arguments' if memo else 'not memoised'}", detail="memo-key")
+
+
 def r02_2(prog, rep):
     f = prog.function("typelib.codecs.codec")
     t = ("param", "t")
@@ -64,6 +88,8 @@ def r02_2(prog, rep):
     want_m = ("boolop", "or", (("param", "marshaller"), None))
     for p, r in P.returns(ps):
         bytes_guard = [pol for g, pol in p.guards() if T.is_call_to(g, f"{C.INSP}.isbytestype") and g[2] == (t,)]
+        if r[0] == "sub" and r[1][0] == "ref" and r[1][1].startswith("typelib."):
+            continue  # a memo hit (its key is judged by R02.4)
         if r[0] != "call":
             rep.undecided("R02.2", f.qualname, f.loc, "codec() does not return a constructed codec", detail="ctor")
             continue
@@ -135,6 +161,8 @@ def run(prog: Program, rep: Report, tier: str):
     rep.rule("R02.1", "composition shape of the four entry points", floor=4)
     rep.rule("R02.2", "codec() wiring, bytes guard, Codec fields", floor=9)
     rep.rule("R02.3", "default coders symmetric on one backend", floor=6)
+    rep.rule("R02.4", "codec memoisation keyed on every configuration parameter", floor=1)
     r02_1(prog, rep)
     r02_2(prog, rep)
     r02_3(prog, rep)
+    r02_4(prog, rep)
